@@ -294,7 +294,11 @@ def gen_call(rng, spec, values=None, p_kw=0.3):
 # --------------------------------------------------------------------------- wide annotation grammar
 WIDE_VALUES = VALUE_POOL + [["t", ["v", 1]], ["t", ["v", "a"]], ["t", ["mi", 2]], ["t"], ["t", ["v", 1], ["v", "a"]],
                             ["l", ["v", 1]], ["l", ["v", "a"]], ["l"], ["d"], ["d", [["v", "k"], ["v", 1]]],
-                            ["d", [["v", "a"], ["v", "b"]]], ["v", "abc"], ["v", "xa"], ["v", -3]]
+                            ["d", [["v", "a"], ["v", "b"]]], ["v", "abc"], ["v", "xa"], ["v", -3],
+                            # tuples *inside* tuples / lists, of the right and of the wrong length
+                            ["t", ["t", ["v", 1], ["v", 2]], ["v", "a"]], ["t", ["t", ["v", 1], ["v", 2], ["v", 3]], ["v", "a"]],
+                            ["t", ["t", ["v", 1]], ["v", "a"]], ["t", ["t"], ["v", "a"]], ["t", ["t", ["v", 1], ["v", 2]]],
+                            ["l", ["t", ["v", 1], ["v", 2]]], ["l", ["t", ["v", 1], ["v", 2], ["v", 3]]], ["l", ["t", ["v", 1]]]]
 
 
 def gen_wide_tx(rng, classes, depth=0):
@@ -320,9 +324,13 @@ def gen_wide_tx(rng, classes, depth=0):
         return ["L", *rng.sample([0, 1, 2, 3], rng.choice([1, 1, 2]))] if rng.random() < 0.8 else ["L", "a", 0]
     if r < 0.82:
         return gen_dep_tx(rng, classes)
-    if r < 0.88:
+    if r < 0.85:
         return ["T", gen_wide_tx(rng, classes, depth + 1)] if rng.random() < 0.7 else \
             ["T", gen_wide_tx(rng, classes, depth + 1), gen_wide_tx(rng, classes, depth + 1)]
+    if r < 0.88:
+        # a tuple type that is not the outermost annotation
+        inner = ["T", "int", "int"] if rng.random() < 0.7 else ["T", "int"]
+        return rng.choice([["T", inner, "str"], ["Ls", inner], ["T", inner], ["U", ["T", inner, "str"], "str"]])
     if r < 0.90:
         return [rng.choice(["Ls", "Sq"]), rng.choice(["int", "str", "MyInt"])]
     if r < 0.92:
